@@ -163,6 +163,9 @@ class StmtMixin(object):
                 self.bind(name, m)
                 return
             m = self.make_value(td, self.fresh(name))
+            if isE(v) and td.R == 1 and td.C == 1:
+                sv = v
+                v = ExprMat(1, 1, lambda r, c: sv)      # DIM == 1: a 1x1 expression is a scalar
             if not isinstance(v, Mat):
                 fail(d, 'matrix initialised from %s' % type(v).__name__)
             self.mat_assign(m, v, '=', d)
